@@ -103,6 +103,9 @@ def run(ctx) -> None:
              "variable only under ignore_errors or for 'replica' in primitive mode (the validator resolves in primitive mode), "
              "the resolver calls fill_in without ignore_errors, and interpolate rescans until no reference is left "
              "(the C04.R5/R8 analysis re-used)")
+    ctx.rule("C11.R7-validator-sees-every-key", "the closed-schema validation runs on the component after its layers were merged, so the "
+             "merge must carry every key of the document to it: override_object copies the keys that only the higher layer "
+             "defines unconditionally (a misspelled option is exactly such a key - also when its value is null)")
     ctx.assume("implicit exceptions (subscripts, library calls) outside try blocks are not modelled")
     ctx.assume("calls are resolved by name (self.<method> within the class, FlowIR.<method>, module functions)")
 
@@ -291,6 +294,27 @@ def run(ctx) -> None:
 
     # ---------------- R5 -------------------------------------------------------------------------------
     check_cycle_detector(ctx, fl)
+
+    # ---------------- R7 -------------------------------------------------------------------------------
+    from checks.c04 import novel_keys_copied
+    oo = fl.func("FlowIR.override_object")
+    ctx.analysed(oo)
+    ok, where, why = novel_keys_copied(oo)
+    ctx.ob("C11.R7-validator-sees-every-key", where, ok,
+           "override_object hands every key of the higher layer to the merged component, whatever its value" if ok else
+           "override_object does not copy every key that only the component defines (%s): the closed-schema check runs on the merged "
+           "component, a misspelled option is always such a novel key (the defaults define every real option), so "
+           "'memmory: null' or 'maxRestart:' is dropped before validation and the workflow loads" % why,
+           construct="override_object: novel keys reach the schema validation")
+    # the merged component is what the schema validation receives: validate_component is applied to the configuration returned by
+    # get_component_configuration (checked by R4); here: the validator reports unknown keys
+    vos = fl.functions.get("validate_object_schema")
+    ctx.require(vos is not None, "anchor missing: validate_object_schema")
+    ctx.analysed(vos)
+    unknown = [c for c in ast.walk(vos) if isinstance(c, ast.Call) and (call_name(c) or "").endswith("FlowIRKeyUnknown")]
+    ctx.ob("C11.R7-validator-sees-every-key", unknown[0] if unknown else vos, bool(unknown),
+           "validate_object_schema reports keys that are not in the schema (FlowIRKeyUnknown)" if unknown else
+           "validate_object_schema no longer reports unknown keys", construct="validate_object_schema -> FlowIRKeyUnknown")
 
     # ---------------- R6 -------------------------------------------------------------------------------
     from checks.c04 import undefined_variable_rules
